@@ -105,6 +105,7 @@ func (e *Exec) resetPath(prefix []Decision) {
 	e.observed = nil
 	e.tables = map[*Value]string{}
 	e.pools = map[*Value][]Value{}
+	e.syncMaps = map[*Value]*Map{}
 	e.roundings = nil
 	e.defCache = map[string]string{}
 	e.radixes = map[string]*radix{}
